@@ -159,24 +159,24 @@ PLAN = {
               "(nil iff empty, element-wise identical, never a nil entry, nil container = no-op). (B) table histories: build operations interleaved with Row.AddError on pending and attached rows, Row.Add on separator and zero-value rows, registration of failing recording "
               "callbacks on every owner (table, column incl. 0, row pending/attached, cell) x 4 times x 3 targets before or after the rows exist, and render passes (InvokeRenderCallbacks, csv, texttable); every raised error is unique. After every step: each pending row reports exactly "
               "the errors raised on it, in order; the table reports every error raised on it or on rows that have joined it exactly once, no nil, per-source order preserved, misuse errors counted. "
-              "Part A works on two containers: errors of one are merged into the other via Errors(), and the caller overwrites and extends the list it passed last. Non-trivial: (A) a zero-value or nil container receives a list with a nil entry; (B) an error on a pending row, a failing callback, or a cell added to a separator. Distinct: FNV-64 of the history."),
+              "Part A works on two containers: errors of one are merged into the other via Errors(), and the caller overwrites and extends the list it passed last. Part A is also enumerated: every sequence of up to 5 (thorough 6) operations over a 12-operation alphabet on each kind of container. Non-trivial: (A) a zero-value or nil container receives a list with a nil entry; (B) an error on a pending row, a failing callback, or a cell added to a separator. Distinct: FNV-64 of the history."),
         level_text="Model-based (stateful) property testing: the history is one shrinkable value, the model invariant runs after every step. Exploration level.",
         level_note="The oracle is driven by the errors the harness' callbacks actually returned (not by a firing specification), so it holds for any callback schedule; errors not created by the harness are ignored except the documented misuse error. Caller-side aliasing of slices passed in or handed out is not asserted.",
-        technique="model-based stateful property testing (rapid) with an invariant after every step",
-        quick=[rapid("containers", "TestPropA", 10000), rapid("tables", "TestPropB", 5000)],
-        thorough=[rapid("containers", "TestPropA", 200000, shards=8), rapid("tables", "TestPropB", 150000, shards=16)],
+        technique="model-based stateful property testing (rapid) with an invariant after every step + bounded exhaustive enumeration of container histories",
+        quick=[rapid("containers", "TestPropA", 10000), rapid("tables", "TestPropB", 5000), enum("enumA", "TestEnumA", env={"VERIF_C11_ENUM_LEN": 5})],
+        thorough=[rapid("containers", "TestPropA", 200000, shards=8), rapid("tables", "TestPropB", 150000, shards=16), enum("enumA", "TestEnumA", env={"VERIF_C11_ENUM_LEN": 6}, timeout=3000)],
     ),
     "C12": dict(
         pkg="c12",
         rule=("stateful: rapid-generated histories of 3..30 (thorough 60) operations over set / set-to-nil / re-set-same-value / copy a cell by value / add a copied cell to a row / grow the table (0..24 cells, crossing the 10- and 20-entry capacities) / "
               "AddHeaders / pending rows and attach / separators / take and keep a column handle, on owners {table, table through a wrapper, Column(n) fetched now, handles taken earlier, rows attached and pending and separators, live cells, header cells, by-value cell copies}, "
               "keys from a pool mixing int(1), int64(1), \"1\", a named int type, a struct, two distinct pointers to equal values, uint8(1) and the library's own alignment key. More operations: set 8..12 keys at once, build a cell from a cell (a new owner with no properties), call Update() on cell owners. Oracle: one map per owner; after EVERY step every key of the pool is read on EVERY owner "
-              "(so a cross-owner leak shows at once); re-setting a key to its current value must leave len(%#v owner) unchanged. Non-trivial: >=2 keys on one owner and a cell copy or a handle held across growth. Distinct: FNV-64 of the history."),
+              "(so a cross-owner leak shows at once); re-setting a key to its current value must leave len(%#v owner) unchanged. Plus an enumeration of every history of up to 4 (thorough 6) operations over a 14-operation alphabet (three keys, a cell, its by-value copy, a column handle, copying, growth past ten columns, re-setting). Non-trivial: >=2 keys on one owner and a cell copy or a handle held across growth. Distinct: FNV-64 of the history."),
         level_text="Model-based (stateful) property testing with a per-owner map model and a global read-back sweep after every step. Exploration level.",
         level_note="Cell owners are re-resolved through the row at every use (only column handles are required to stay valid across growth). The growth check is representation-agnostic (length of the %#v rendering).",
-        technique="model-based stateful property testing (rapid) with a per-owner map model",
-        quick=[rapid("prop", "TestProp", 5000)],
-        thorough=[rapid("prop", "TestProp", 150000, shards=16)],
+        technique="model-based stateful property testing (rapid) with a per-owner map model + bounded exhaustive enumeration of small histories",
+        quick=[rapid("prop", "TestProp", 5000), enum("enum", "TestEnum", shards=7, env={"VERIF_C12_ENUM_LEN": 4})],
+        thorough=[rapid("prop", "TestProp", 150000, shards=16), enum("enum", "TestEnum", shards=14, env={"VERIF_C12_ENUM_LEN": 6}, timeout=3000)],
     ),
     "C13": dict(
         pkg="c13",
